@@ -136,6 +136,32 @@ Theorem C11_per_metric_data vals vars fails objs opt_ix con_ix jobs index v w :
 Proof. exact (view_jobs_in vals vars fails objs opt_ix con_ix jobs index v w). Qed.
 Print Assumptions C11_per_metric_data.
 
+(* ... and, composing with C12's view law: WHICH RAW COLUMN.  For index lists in ANY order (non-ascending, interleaved with
+   stored metrics; no NoDup or sortedness hypothesis), the job carrying metric `index` -- position k of
+   optimized_metrics_index or of constraint_metrics_index, where index = list[k] -- is fitted on raw column `index` of the
+   request's values, normalised by THAT column's own midpoint info under THAT metric's objective (Midpoint.smmi of the
+   column: C12), at the successful observations only, in observation order. *)
+Theorem C11_fit_on_own_raw_column vals vars fails objs opt_ix con_ix jobs index v w :
+  length fails = length vals ->
+  view_jobs vals vars fails objs opt_ix con_ix = Some jobs -> In (index, v, w) jobs ->
+  exists i, Midpoint.smmi (Midpoint.column index vals) fails (nth index objs Midpoint.NoObjective) = Some i /\
+    v = map (Midpoint.rel_value i) (Midpoint.select (map negb fails) (Midpoint.column index vals)).
+Proof. exact (job_on_own_raw_column vals vars fails objs opt_ix con_ix jobs index v w). Qed.
+Print Assumptions C11_fit_on_own_raw_column.
+
+(* non-vacuity: metric 1 optimised, constraint metrics listed as [2; 0] (non-ascending), one failed observation: the jobs
+   come in the order 1, 2, 0 and the job of metric 2 holds column 2 (minimised: 1, 3, 2 -> -0.1, 0.1, 0), the job of
+   metric 0 holds column 0 (maximised: 0, 4, 2 -> 0.1, -0.1, 0) *)
+Example C11_example_index_order :
+  let vals := [[0; 5; 1]; [4; 5; 3]; [9; 9; 9]; [2; 6; 2]] in
+  let vars := [[0; 0; 0]; [0; 0; 0]; [0; 0; 0]; [0; 0; 0]] in
+  exists jobs v2 w2 v0 w0,
+    view_jobs vals vars [false; false; true; false] [Midpoint.Maximize; Midpoint.Minimize; Midpoint.Minimize] [1%nat] [2%nat; 0%nat]
+      = Some jobs /\
+    map idx jobs = [1; 2; 0]%nat /\ nth_error jobs 1 = Some (2%nat, v2, w2) /\ nth_error jobs 2 = Some (0%nat, v0, w0) /\
+    forall2b Qeq_bool v2 [-(1 # 10); 1 # 10; 0] = true /\ forall2b Qeq_bool v0 [1 # 10; -(1 # 10); 0] = true.
+Proof. do 5 eexists. vm_compute. repeat split; reflexivity. Qed.
+
 (* A fitted dictionary (optimiser result inside the box or equal to the start vector, as C11_result_in_box_or_start gives):
    supplied structure, packs to the optimiser's vector, every value positive, and lies in the data-derived box or equals the
    start vector built from the supplied dictionary. *)
